@@ -493,4 +493,107 @@ func registerRound5() {
 		},
 		Quick: 2, Thor: 3,
 	})
+
+	// ================================================================ seventh round
+	// C17 / C07: clients that vanish before their handler answers, on a process with few descriptors left: each
+	// connection gives its descriptor back, so a later client is still accepted and served
+	regSpec(&Spec{
+		Name: "vanished-clients-then-new-connection-few-descriptors", Props: []string{"C17", "C07", "C08"},
+		Conns: []ConnSpec{
+			{Ops: []string{"search"}, H: map[int]*HSpec{1: {WaitNote: "gone1-done"}}, Read: "none", End: "reset", EndNote: "started-1", Name: "gone1"},
+			{Ops: []string{"search"}, H: map[int]*HSpec{1: {WaitNote: "gone2-done"}}, Read: "none", End: "reset", EndNote: "started-2", Name: "gone2", After: 1},
+			{Ops: []string{"bind", "search"}, Segs: []int{1, 1}, Expect: 2, Name: "fresh", After: 2},
+		},
+		Extra: func(w *World) {
+			vnet.SetDescriptorLimit(2)
+			watchStarted(1)(w)
+			vrt.GoNamed("watch2", func() {
+				vrt.WaitUntil("started-2", func() bool { return w.Started >= 2 })
+				vrt.Atomic(func() { w.Notes["started-2"]++ })
+			})
+		},
+		Check: servedCheck("C17", "a connection made while the server is ready and not stopped is never served"),
+		Quick: 2, Thor: 3,
+	})
+	// C10: the unbind handler of one connection waits for the unbind handler of another to have started
+	regSpec(&Spec{
+		Name: "unbind-handlers-of-two-connections-overlap", Props: []string{"C10", "C06"},
+		Conns: []ConnSpec{
+			{Ops: []string{"bind", "unbind"}, H: map[int]*HSpec{2: {WaitUnbinds: 2}}, Read: "all"},
+			{Ops: []string{"unbind"}, Read: "all", WaitNote: "unbind-started"},
+		},
+		Quick: 2, Thor: 3,
+	})
+	// C10: after the Unbind the client keeps its side of the connection open (it waits for the server)
+	for _, route := range []bool{true, false} {
+		regSpec(&Spec{
+			Name: fmt.Sprintf("unbind-client-keeps-its-side-open-route%v", route), Props: []string{"C10", "C08", "C11"},
+			Srv:         SrvOpts{NoUnbindRoute: !route},
+			Conns:       []ConnSpec{{Ops: []string{"bind", "unbind"}, Read: "all", End: "stay"}},
+			ClientsIdle: true, Quick: 2, Thor: 3,
+		})
+	}
+	// C15 / C05: a handler hands its ResponseWriter to a goroutine of its own and returns; the client leaves,
+	// a newer connection is served, then the goroutine writes
+	regSpec(&Spec{
+		Name: "late-write-from-a-handlers-goroutine-vs-newer-connection", Props: []string{"C15", "C05", "C07"}, WriterRaceIs: "C07",
+		Conns: []ConnSpec{
+			{Ops: []string{"search"}, H: map[int]*HSpec{1: {LateWrite: "fresh-answered"}}, Read: "none", EndNote: "started-1", Name: "faulty"},
+			{Ops: []string{"bind", "search"}, Segs: []int{1, 1}, AckAt: 1, AckNote: "fresh-answered", Expect: 2, Name: "fresh", WaitNote: "onclose-1", EndNote: "late-write-done"},
+		},
+		Extra: watchStarted(1), Quick: 2, Thor: 3,
+	})
+	// C13: the ClientHello arrives in three TCP segments
+	for _, y := range []int{0, 1} {
+		regSpec(&Spec{
+			Name: fmt.Sprintf("starttls-clienthello-in-three-segments-y%d", y), Props: []string{"C13"},
+			Conns: []ConnSpec{{Ops: []string{"starttls", "bind"}, H: map[int]*HSpec{1: {YieldsAfter: y}}, Expect: 2, FragmentHello: true}},
+			Check: startTLSCheck(1), Quick: 2, Thor: 3,
+		})
+	}
+	// C13: a configuration that still allows TLS 1.1 and a client that offers nothing newer
+	{
+		srv, cli := legacyPKI()
+		regSpec(&Spec{
+			Name: "starttls-with-tls11", Props: []string{"C13"},
+			Srv:   SrvOpts{StartTLS: srv},
+			Conns: []ConnSpec{{Ops: []string{"starttls", "bind", "search"}, Segs: []int{1, 1}, Expect: 3, TLSCfg: cli}},
+			Check: startTLSCheck(1), Quick: 2, Thor: 3,
+		})
+	}
+	// C12: Stop with an established session on a TLS listener: the socket is closed, not only the TLS session
+	regSpec(&Spec{
+		Name: "stop-with-established-tls-listener-session", Props: []string{"C12", "C08", "C11"},
+		Srv:         SrvOpts{TLS: getPKI().ServerCfg},
+		Conns:       []ConnSpec{{TLS: "listener", Ops: []string{"bind"}, Expect: 1, End: "stay"}},
+		ClientsIdle: true, Quick: 2, Thor: 3,
+	})
+	regSpec(&Spec{
+		Name: "stop-while-tls-listener-client-reads", Props: []string{"C12", "C08", "C11"},
+		Srv:      SrvOpts{TLS: getPKI().ServerCfg},
+		Conns:    []ConnSpec{{TLS: "listener", Ops: []string{"bind"}, Read: "all", ReadFor: 30}},
+		StopWhen: "note:started-1", Extra: watchStarted(1), Quick: 2, Thor: 3,
+	})
+
+	// C08 / C12: Stop while a handler of one connection is at work and another client is just connecting (the
+	// accept loop asks for the server's write lock while Stop holds its read lock and waits)
+	regSpec(&Spec{
+		Name: "stop-while-handler-runs-and-a-client-connects", Props: []string{"C08", "C11", "C12"},
+		Srv: SrvOpts{OnCloseYields: 1},
+		Conns: []ConnSpec{
+			{Ops: []string{"search"}, H: map[int]*HSpec{1: {Yields: 3}}, Read: "all"},
+			{Ops: []string{"bind"}, Read: "all", WaitNote: "started-1"},
+		},
+		StopWhen: "note:started-1", Extra: watchStarted(1), Quick: 2, Thor: 3,
+	})
+	// C07: a request whose control is malformed (controlType is an INTEGER) next to a bystander
+	regSpec(&Spec{
+		Name: "fault-malformed-control", Props: []string{"C07", "C08"},
+		Conns: []ConnSpec{
+			{Ops: []string{"bind", "bind-badcontrol"}, Read: "all", Name: "faulty"},
+			{Ops: []string{"search"}, Expect: 1, Name: "bystander", EndNote: "faulty-done"},
+			{Ops: []string{"bind", "search"}, Segs: []int{1, 1}, Expect: 2, Name: "fresh", After: 2},
+		},
+		Check: bystandersServed, Quick: 2, Thor: 3,
+	})
 }
